@@ -172,6 +172,52 @@ fn main() {
 				}
 			}
 		}
+		// quiescent try exactness (C13): every assignment of {free, read-held, write-held by another
+		// thread} to the leaves x every shape x both modes; each attempt is made twice (a failed
+		// attempt must leave the table as it was, a successful one must be undone by the guard drop),
+		// through try_lock/try_read and scoped_try_lock/scoped_try_read
+		"quiet" => {
+			let maxn = if quick { 3 } else { 4 };
+			for n in 0..=maxn {
+				let kmenu = if n == 0 { vec![vec![]] } else { kinds_menu(n, false) };
+				for kinds in kmenu {
+					let rw_all = kinds.iter().all(|k| *k);
+					for perm in perms_menu(n, quick || n == 4, &mut rng) {
+						let shapes = if n == 0 {
+							let e = || Box::new(Expr::V(vec![]));
+							vec![
+								("B".to_string(), vec![Expr::B(e())]),
+								("F".to_string(), vec![Expr::F(e())]),
+								("T".to_string(), vec![Expr::T(e())]),
+								("O".to_string(), vec![Expr::O(1, e())]),
+							]
+						} else {
+							shape_menu(n, &kinds, if n == 4 && quick { 1 } else { 2 })
+						};
+						for (_name, colls) in shapes {
+							let tgt = colls.len() - 1;
+							let modes: &[bool] = if rw_all { &[true, false] } else { &[true] };
+							for &write in modes {
+								for held in held_patterns(n, &kinds, true) {
+									for api in [Api::Try, Api::ScopedTry] {
+										let e = if matches!(api, Api::Try) { Exit::Drop } else { Exit::Ret };
+										let prog = vec![
+											Stmt::Get,
+											session(tgt, api, write, true, vec![], e),
+											session(tgt, api, write, true, vec![], e),
+											Stmt::Get,
+										];
+										let c = base(format!("{family}{bi}"), n, &perm, &colls, &held, prog);
+										bi += 1;
+										sink_runs += explore(&c, Budget { refusals: 0, faults: 0, max_runs: 1 }, &mut |c, r| out.emit(c, r));
+									}
+								}
+							}
+						}
+					}
+				}
+			}
+		}
 		// acquisition order: every constructor (try_new, new, new_ref) of every sorting collection,
 		// every listing permutation x every address permutation, nested members, owned groups as
 		// units, both modes; two collections over the same locks in one program
